@@ -1,18 +1,22 @@
 #!/bin/bash
-# tools/run_all_mutants.sh [pattern] : runs every mutants/<cNN>_*.diff (hand-written by the harness builders; see mutants/README) against its
-# property's quick check in a scratch worktree (tools/mutant_run.sh, repo tests skipped here -- the builders ran them) and writes mutants/RESULTS.md.
+# tools/run_all_mutants.sh [pattern] : runs every mutants/<cNN>_*.diff (hand-written by the harness builders) against its property's quick
+# check in a scratch worktree (tools/mutant_run.sh, repo tests skipped here -- the builders ran them) and writes / updates mutants/RESULTS.md
+# (with a pattern only the matching rows are replaced).
 cd /verif
 OUT=mutants/RESULTS.md
 TMP=$(mktemp)
+[ -f "$OUT" ] && grep '^| c' "$OUT" > "$TMP.old" || : > "$TMP.old"
 for f in mutants/${1:-c}*.diff; do
   b=$(basename "$f" .diff); p=$(echo "$b" | cut -c1-3 | tr a-z A-Z)
   R=$(SKIP_TESTS=1 TAIL=60 VERIF_JOBS=${VERIF_JOBS:-10} tools/mutant_run.sh "$f" "$p" quick 2>&1)
   RC=$(echo "$R" | grep 'check exit' | sed 's/check exit: //')
   V=$(echo "$R" | grep -m1 'clause=' | sed 's/^ *//; s/detail=.*//' | cut -c1-110)
   [ -z "$RC" ] && RC="patch does not apply (tree moved on)"
+  grep -v "^| $b |" "$TMP.old" > "$TMP.new"; mv "$TMP.new" "$TMP.old"
   echo "| $b | $p | $RC | $V |" >> "$TMP"
   echo "$b -> $RC"
 done
-{ echo "# Hand-written mutants (by the harness builders) against the quick tier"; echo; echo "exit 1 = detected (VIOLATION), 0 = not detected, 2 = harness error. Mutants the builders judged property-equivalent are listed in DESIGN.md §10."; echo;
+cat "$TMP.old" >> "$TMP"
+{ echo "# Hand-written mutants (by the harness builders) against the quick tier"; echo; echo "exit 1 = detected (VIOLATION), 0 = not detected, 2 = harness error. The undetected ones are triaged in DESIGN.md §10.5."; echo;
   echo "| mutant | property | check exit | first violation |"; echo "|---|---|---|---|"; sort "$TMP"; } > "$OUT"
-rm -f "$TMP"
+rm -f "$TMP" "$TMP.old"
